@@ -1317,10 +1317,41 @@ class SyncInterpreter(BaseInterpreter[TContext, TEvent]):
         Args:
             state (StateNode): The state whose timers should be cancelled.
         """
-        # 🧹 Drop notifications of this activation that are already queued —
-        #    see `Interpreter._cancel_state_tasks`.
-        if (state.after or state.invoke) and self._event_queue:
-            with self._queue_lock:
+        # ⏰ Cancel the timers and 🧹 drop the notifications of this activation
+        #    that are already queued (see `Interpreter._cancel_state_tasks`) as
+        #    ONE step under the queue lock. A timer thread that has already
+        #    woken up enqueues under the same lock after re-checking its
+        #    cancel flag: its event is either in the queue by now — and is
+        #    purged here — or it sees the flag and sends nothing. Cancelling
+        #    after the purge left a gap in which a stale expiry slipped in and
+        #    fired the timer of the NEXT activation right after re-entry.
+        state_prefix = f"{state.id}::"  # our internal key scheme
+        with self._queue_lock:
+            to_cancel = [
+                k
+                for k in list(self._after_events.keys())
+                if k == state.id or k.startswith(state_prefix)
+            ]
+            if not to_cancel:
+                logger.debug(
+                    "🧹 No 'after' timers to cancel for state '%s'.", state.id
+                )
+            for key in to_cancel:
+                logger.debug(
+                    "🧹 Cancelling 'after' timer key='%s' (owner='%s')",
+                    key,
+                    state.id,
+                )
+                # Remove from tracking dicts whether the thread is alive or
+                # not; the thread cleans itself up on exit as well — possibly
+                # right now, so the entry may already be gone (indexing it
+                # raised KeyError in the middle of the transition).
+                cancel_event = self._after_events.pop(key, None)
+                if cancel_event is not None:
+                    cancel_event.set()  # signal cancellation
+                self._after_threads.pop(key, None)
+
+            if (state.after or state.invoke) and self._event_queue:
                 kept = [
                     e
                     for e in self._event_queue
@@ -1340,34 +1371,6 @@ class SyncInterpreter(BaseInterpreter[TContext, TEvent]):
             child = self._actors.pop(f"{self.id}:{invocation.id}", None)
             if child is not None:
                 child.stop()
-
-        state_prefix = f"{state.id}::"  # our internal key scheme
-        to_cancel = [
-            k
-            for k in list(self._after_events.keys())
-            if k == state.id or k.startswith(state_prefix)
-        ]
-
-        if not to_cancel:
-            logger.debug(
-                "🧹 No 'after' timers to cancel for state '%s'.", state.id
-            )
-            return
-
-        for key in to_cancel:
-            logger.debug(
-                "🧹 Cancelling 'after' timer key='%s' (owner='%s')",
-                key,
-                state.id,
-            )
-            # Remove from tracking dicts whether the thread is alive or not;
-            # the thread cleans itself up on exit as well — possibly right
-            # now, so the entry may already be gone (indexing it raised
-            # KeyError in the middle of the transition).
-            cancel_event = self._after_events.pop(key, None)
-            if cancel_event is not None:
-                cancel_event.set()  # signal cancellation
-            self._after_threads.pop(key, None)
 
     def _after_timer(
         self, delay_sec: float, event: AfterEvent, owner_id: str
@@ -1408,16 +1411,30 @@ class SyncInterpreter(BaseInterpreter[TContext, TEvent]):
                     )
                     return
 
-                # Fire only if interpreter still running AND owner still active.
-                if self.status == "running" and any(
-                    s.id == owner_id for s in self._active_state_nodes
-                ):
+                # Fire only if interpreter still running AND owner still active
+                # AND this timer was not cancelled while it was waking up.
+                # The decision and the enqueue are one step under the queue
+                # lock (see `_cancel_state_tasks`).
+                with self._queue_lock:
+                    fire = (
+                        not cancel_event.is_set()
+                        and self.status == "running"
+                        and any(
+                            s.id == owner_id
+                            for s in self._active_state_nodes
+                        )
+                    )
+                    if fire:
+                        if self._is_processing:
+                            self._chained_sends += 1
+                        self._event_queue.append(event)
+                if fire:
                     logger.debug(
                         "🕒 Timer expired -> sending event '%s' [key=%s].",
                         event.type,
                         unique_key,
                     )
-                    self.send(event)
+                    self._process_event_queue()
                 else:
                     logger.debug(
                         "⚠️ Timer expired but owner inactive or interpreter stopped [key=%s].",
